@@ -450,14 +450,30 @@ func c10ExpectAtt(dialect int, segs [][]byte) (answer bool) {
 
 // ---------------------------------------------------------------- the op
 
+// c10ContainOp plays the script; when an awaited answer did not come within the timeout although the process is
+// alive (a stall of the machine: the default file handler fsyncs its log after every event), the script is played
+// again on fresh connections, up to 3 times; only what persists is reported.
 func c10ContainOp(kind string, a []string) string {
+	var ans string
+	for attempt := 0; attempt < 3; attempt++ {
+		var suspect bool
+		ans, suspect = c10ContainOnce(kind, a)
+		if !suspect {
+			break
+		}
+		time.Sleep(300 * time.Millisecond)
+	}
+	return ans
+}
+
+func c10ContainOnce(kind string, a []string) (result string, suspect bool) {
 	if len(a) < 1 {
-		return "bad-args"
+		return "bad-args", false
 	}
 	param := a[0]
 	child, err := C10GetChild(kind, param)
 	if err != nil {
-		return "no-child " + err.Error()
+		return "no-child " + err.Error(), false
 	}
 	dialect := atoi(param)
 	conns := map[int]*c10Cli{}
@@ -503,6 +519,7 @@ func c10ContainOp(kind string, a []string) string {
 			d, _, ok := c.waitFor(func(b []byte) bool { return len(b) > gSeen && c10WholeFrames(b[gSeen:], 1) }, ContainWaitAnswer)
 			if !ok {
 				g = append(g, "none")
+				suspect = true
 			} else {
 				// a little patience for further frames of the same answer (there are none in practice)
 				g = append(g, Hx(d[gSeen:]))
@@ -527,6 +544,7 @@ func c10ContainOp(kind string, a []string) string {
 				acc = Hx(d)
 			} else {
 				acc = "none"
+				suspect = true
 			}
 			c.close(false)
 		case head[0] == 'O':
@@ -575,6 +593,9 @@ func c10ContainOp(kind string, a []string) string {
 					status[k] = "open:" + c10Replies808(d)
 				default:
 					status[k] = "quiet:" + c10Replies808(d)
+					if answer || closing {
+						suspect = true
+					}
 				}
 			} else {
 				_, _, _, pser, _, _ := Parse808(data)
@@ -592,6 +613,9 @@ func c10ContainOp(kind string, a []string) string {
 					status[k] = "open:" + Hx(d)
 				default:
 					status[k] = "quiet:" + Hx(d)
+					if answer {
+						suspect = true
+					}
 				}
 			}
 		default:
@@ -604,7 +628,10 @@ func c10ContainOp(kind string, a []string) string {
 	time.Sleep(2 * time.Millisecond)
 	alive := child.Alive()
 	if fail != "" && alive {
-		return "harness-fail " + fail
+		return "harness-fail " + fail, true
+	}
+	if !alive {
+		suspect = false
 	}
 	var sb strings.Builder
 	fmt.Fprintf(&sb, "ok alive=%d g=%s", b2i(alive), strings.Join(append([]string{}, g...), "/"))
@@ -618,7 +645,7 @@ func c10ContainOp(kind string, a []string) string {
 	if !alive {
 		fmt.Fprintf(&sb, " death=%q", child.Death())
 	}
-	return sb.String()
+	return sb.String(), suspect
 }
 
 // contain808mem <limit MB> <n>: a FRESH JT808 server under an address-space limit (ulimit -v); one hostile
@@ -748,7 +775,7 @@ func (l *C10Long) Ping() string {
 	}
 	l.cli.c.Write(Frame808(id, false, l.bcd, l.ser, body))
 	want := Frame808(0x8001, false, l.bcd, l.plat, []byte{byte(l.ser >> 8), byte(l.ser), byte(id >> 8), byte(id), 0})
-	d, closed, ok := l.cli.waitFor(func(b []byte) bool { return len(b) >= l.seen+len(want) }, ContainWaitAnswer)
+	d, closed, ok := l.cli.waitFor(func(b []byte) bool { return len(b) >= l.seen+len(want) }, 3*ContainWaitAnswer)
 	got := d[l.seen:]
 	l.seen = len(d)
 	l.plat++
